@@ -348,7 +348,7 @@ def allclose_term(a, b, rtol=1e-5, atol=1e-8):
             lhs = abs(Sym.of(x) - y)
             rhs = Sym.of(abs(Sym.of(y)) * rtol + atol)
             d = Sym.of(lhs - rhs)
-            terms.append(d.sgn_expr() <= 0)
+            terms.append(d.sign_term("le"))
         else:
             if not abs(x - y) <= atol + rtol * abs(y):
                 return False
